@@ -37,6 +37,7 @@ from ..absval import Poly, Rat, ratfun
 from ..cfg import CFG
 from ..core import AnalysisError, dotted, enclosing_stmt, short, txt, walk
 from ..lib_C02 import (Arr, Ev, Feat, Mini, MiniError, ModelFault, NS, Opaque,
+                       bind_like,
                        numpy_model)
 
 ASSUMPTIONS = [
@@ -497,8 +498,14 @@ def cli_globals(repo, rel, fs, wmod, datasets, extra=None):
         "time": NS("time", strptime=_time.strptime, mktime=_time.mktime),
         "dfn": NS("dfn", CFG_METADATA=["experiment", "imaging", "setup"]),
         "version": "1.2.3",
-        "RTDCWriter": lambda path, **k: HWM(fs.get(path)),
-        "new_dataset": lambda p: _lookup(datasets, p),
+        # stand-ins bind their arguments through the real signatures
+        "RTDCWriter": bind_like(
+            repo.func("dclab/rtdc_dataset/writer.py", "RTDCWriter.__init__"),
+            lambda path_or_h5file, **k: HWM(fs.get(path_or_h5file)),
+            method=True),
+        "new_dataset": bind_like(
+            repo.func("dclab/rtdc_dataset/load.py", "new_dataset"),
+            lambda data, **k: _lookup(datasets, data)),
         "fmt_tdms": NS("fmt_tdms", NPTDMS_AVAILABLE=False),
         "print": lambda *a, **k: None,
         "FeatureSetNotIdenticalJoinWarning": UserWarning,
@@ -613,8 +620,12 @@ def run_split(repo, n, size, empty=(), skip_i=True, skip_f=True):
     ds = DSS(n, set(empty), fs)
     datasets = {"dir/in.rtdc": ds}
     common = NS("common",
-                get_command_log=lambda paths, **k: ["cmd"],
-                assemble_warnings=lambda w: ["w"])
+                get_command_log=bind_like(
+                    repo.func(COMMON, "get_command_log"),
+                    lambda paths, **k: ["cmd"]),
+                assemble_warnings=bind_like(
+                    repo.func(COMMON, "assemble_warnings"),
+                    lambda w: ["w"]))
     mini = cli_globals(repo, SPLIT, fs, wmod, datasets, {"common": common})
     cmini = cli_globals(repo, COMMON, fs, wmod, datasets)
     helper = repo.func(COMMON, "skip_empty_image_events")
@@ -825,9 +836,15 @@ def run_join(repo, specs, order):
 
     def setup_task_paths(paths_in, paths_out, allowed_input_suffixes=None):
         return ([PathM(str(p), fs) for p in paths_in], out, temp)
-    common = NS("common", setup_task_paths=setup_task_paths,
-                get_command_log=lambda paths, **k: [str(p) for p in paths],
-                assemble_warnings=lambda w: [str(x.message) for x in w])
+    common = NS("common",
+                setup_task_paths=bind_like(
+                    repo.func(COMMON, "setup_task_paths"), setup_task_paths),
+                get_command_log=bind_like(
+                    repo.func(COMMON, "get_command_log"),
+                    lambda paths, **k: [str(p) for p in paths]),
+                assemble_warnings=bind_like(
+                    repo.func(COMMON, "assemble_warnings"),
+                    lambda w: [str(x.message) for x in w]))
     mini = cli_globals(repo, JOIN, fs, wmod, datasets, {"common": common})
     f = repo.func(JOIN, "join")
     mini.call(f, (), dict(paths_in=[f"{n}.rtdc" for n in order],
@@ -1618,5 +1635,36 @@ MUTANTS = list(MUTANTS) + [
 TWINS = list(TWINS) + [
     ("join: timestamp replaces the parsed start instant as a whole", JOIN,
      (_FRAC, _FRAC + _TS)),
+]
+
+
+TWINS = list(TWINS) + [
+    ("join: in-place sort with operator.itemgetter, tuple unpacking", JOIN,
+     [("import argparse\n", "import argparse\nimport operator\n"),
+      ("    sorted_paths = [p[1] for p in sorted(key_paths, "
+       "key=lambda x: x[0])]\n",
+       "    key_paths.sort(key=operator.itemgetter(0))\n"
+       "    sorted_paths = [pp for _key, pp in key_paths]\n")]),
+    ("split: calling styles switched (positional / keyword)", SPLIT,
+     [("common.get_command_log(paths=[path_in])",
+       "common.get_command_log([path_in])"),
+      ("                    ds=ds,\n"
+       "                    initial=skip_initial_empty_image,\n"
+       "                    final=skip_final_empty_image)",
+       "                    ds, skip_initial_empty_image, "
+       "skip_final_empty_image)"),
+      ("        with RTDCWriter(pt, compression_kwargs=cmp_kw) as hw:",
+       "        with RTDCWriter(path_or_h5file=pt,\n"
+       "                        compression_kwargs=cmp_kw) as hw:"),
+      ("                hw.store_log(name, logs[name])\n"
+       "            hw.store_metadata(meta)",
+       "                hw.store_log(name=name, lines=logs[name])\n"
+       "            hw.store_metadata(meta=meta)")]),
+    ("split: number of parts with math.ceil", SPLIT,
+     [("import argparse\n", "import argparse\nimport math\n"),
+      ("            num_files = len(ds) // split_events\n"
+       "            if len(ds) % split_events:\n"
+       "                num_files += 1\n",
+       "            num_files = math.ceil(len(ds) / split_events)\n")]),
 ]
 
